@@ -605,6 +605,9 @@ func redactQueryValues(obj *orderedmap.OrderedMap[string, any], redactFieldNames
 						newObj.Set(redactedKey, v)
 					}
 				}
+			} else {
+				// a null value carries no data but the key must not disappear
+				newObj.Set(redactedKey, v)
 			}
 		}
 	}
@@ -740,6 +743,8 @@ func redactScalarValue(keyPath []string, v interface{}, isSearchStage bool, isSe
 		if redactBooleans {
 			return RedactedBoolean
 		}
+		return v
+	case nil:
 		return v
 	default:
 		return redactedString
